@@ -96,15 +96,70 @@ def tau2_events(rng, d=4, order=2, stale_change=True, nkeys=4, int_current=False
     return evs
 
 
-def tau2_guard(kernel, interface, state, ag, bg, rng, n=5000):
+def tau2_guard(kernel, interface, state, ag, bg, rng, n=5000, pkey="loc_np0_tau2"):
     """Distribution-free guard: KS test of n draws (fresh keys) against IG(ag, bg); rejects only
     below p = 1e-9.  Can only suppress an alarm."""
     keys = jax.random.split(jax.random.PRNGKey(rng.randrange(1 << 30)), n)
     f = jax.jit(jax.vmap(lambda k: interface.extract_position(
-        ["loc_np0_tau2"], _transition(kernel, interface, k, state))["loc_np0_tau2"]))
+        [pkey], _transition(kernel, interface, k, state))[pkey]))
     draws = np.asarray(f(keys), np.float64)
     p = scipy.stats.kstest(draws, scipy.stats.invgamma(a=ag, scale=bg).cdf).pvalue
     return p < 1e-9
+
+
+def tau2_handmade_events(rng, transient=False, nkeys=3):
+    """A smooth put together by hand (no DistRegBuilder): the group handed to tau2_gibbs_kernel holds a penalty matrix that
+    is computed from a weight vector - by a caching calculator or on the fly (transient value node) - and the sampled
+    state holds *other* weights (and coefficients) than the user's model object.  A kernel that refuses the transient
+    configuration makes no draw (no event); a draw must be one from the full conditional of the state it was given."""
+    from liesel.distributions import MultivariateNormalDegenerate
+
+    p = 5
+    D = np.diff(np.eye(p), n=1, axis=0).astype(np.float32)
+    fK = lambda w: D.T @ (w[:, None] * D)  # noqa: E731
+    w = lsl.Var(np.ones(p - 1, np.float32), name="w")
+    K = lsl.Var((lsl.TransientCalc if transient else lsl.Calc)(fK, w), name="K")
+    rank = lsl.Var(np.float32(p - 1), name="rank")
+    a0, b0 = rng.choice([(2.0, 1.5), (1.0, 0.5)])
+    a, b = lsl.Var(np.float32(a0), name="a"), lsl.Var(np.float32(b0), name="b")
+    tau2 = lsl.param(np.float32(1.0), lsl.Dist(tfd.InverseGamma, concentration=a, scale=b), name="tau2")
+    beta = lsl.param((np.linspace(-1.0, 1.0, p) ** 2).astype(np.float32),
+                     lsl.Dist(MultivariateNormalDegenerate.from_penalty, loc=0.0, var=tau2, pen=K, rank=rank), name="beta")
+    group = lsl.Group("s", tau2=tau2, a=a, b=b, rank=rank, beta=beta, K=K)
+    model = lsl.GraphBuilder().add(beta).build_model()
+    interface = gs.LieselInterface(model)
+    kernel = lsl.tau2_gibbs_kernel(group)
+    evs = []
+    for step in range(2):
+        wv = np.asarray([rng.uniform(0.5, 3.0) for _ in range(p - 1)], np.float32)
+        bv = np.asarray([rng.uniform(-1, 1) for _ in range(p)], np.float32)
+        # (the state is made through the interface: the user's model object keeps its own values)
+        state = interface.update_state({"w": jnp.asarray(wv), "beta": jnp.asarray(bv)}, model.state)
+        state_scaled = interface.update_state({"w": jnp.asarray(wv), "beta": jnp.asarray(bv * np.float32(1.7))}, model.state)
+        Kcur = np.asarray(fK(wv), np.float64)
+        q = float(np.asarray(bv, np.float64) @ Kcur @ np.asarray(bv, np.float64))
+        bs = np.asarray(bv * np.float32(1.7), np.float64)
+        q_scaled = float(bs @ Kcur @ bs)
+        ag, bg = a0 + (p - 1) / 2.0, b0 + q / 2.0
+        grid = [0.3, 1.1, 4.0]
+        lps = [float(interface.log_prob(interface.update_state({"tau2": jnp.float32(t)}, state))) for t in grid]
+        for _ in range(nkeys):
+            key = jax.random.PRNGKey(rng.randrange(1 << 30))
+            try:
+                draw = float(interface.extract_position(["tau2"], _transition(kernel, interface, key, state))["tau2"])
+                draw_sc = float(interface.extract_position(["tau2"], _transition(kernel, interface, key, state_scaled))["tau2"])
+            except Exception:  # noqa: BLE001  (no draw at all: nothing to judge)
+                continue
+            gam = float(jax.random.gamma(key, jnp.float32(ag)))
+            replay_ok = abs(draw * gam - bg) <= 1e-4 * abs(bg)
+            guard = False
+            if not replay_ok:
+                guard = tau2_guard(kernel, interface, state, ag, bg, rng, pkey="tau2")
+            evs.append({"ev": "tau2", "a": fstr(a0), "b": fstr(b0), "rank": fstr(float(p - 1)), "q": fstr(q),
+                        "q_scaled": fstr(q_scaled), "grid": [fstr(t) for t in grid], "model_lp": [fstr(x) for x in lps],
+                        "draw": fstr(draw), "draw_scaled": fstr(draw_sc), "gamma_replay": fstr(gam),
+                        "guard_rejects": bool(guard), "d": p, "order": 1})
+    return evs
 
 
 # ---- finite discrete ---------------------------------------------------------------------------------
